@@ -258,7 +258,8 @@ FIELDS = ["id:", "t:", "t2:", "tp:", "to:", "ts:", "k:", "kc:", "il:", "n:", "u8
 WORDS = ["alfa", "bravo", "charlie", "tomato", "stop", "the", "a", "x", "Alfa", "BRAVO", "foo-bar", "foo_bar", "it's",
          "a.b", "re", "helloworld", "he", "h"]
 NUMS = ["0", "1", "2", "-3", "1.5", "-0.5", "1e3", "1e400", "-1e400", "nan", "inf", "-inf", "0x10", "255", "256", "-1",
-        "99999999999999999999", "1.005", ".5", "5.", "1,5", "٣", "²", "1_000", "true", "false", "yes", "no", "t", "f"]
+        "99999999999999999999", "1.005", ".5", "5.", "1,5", "٣", "²", "1_000", "true", "false", "yes", "no", "t", "f",
+        "1e999999999", "-1e999999999", "1e-999999999", "9e99999"]
 DATES = ["2020", "202001", "20200103", "2020-01-03", "2020-01-03 10:00", "2020010310", "20200103101530",
          "20200103101530123456", "20201301", "20200230", "0000", "9999", "99999999", "today", "yesterday", "tomorrow",
          "now", "jan 5", "5 jan 2020", "last tuesday", "next week", "-2d", "+1mo", "3am", "12:30pm", "midnight",
@@ -273,12 +274,13 @@ FUZZ = ["~", "~2", "~3", "~4", "~2/3", "~/3", "~2/9", "~0", "~1/0", "~/", "~2/",
 RANGES = ["[a TO b]", "{a TO b}", "[a TO b}", "[TO b]", "[a TO]", "[TO]", "{TO}", "[ TO ]", "[a to b]", "[aTOb]",
           "['a b' TO 'c d']", "[a TO", "TO b]", "[2 TO 5]", "{2 TO 5}", "[5 TO 2]", "[2020 TO 2021]",
           "[20200103 TO 20200101]", "[x TO y TO z]", "[a TO b]^2", "[1.5 TO x]", "[-3 TO]", "{TO 1e400]",
-          "[today TO tomorrow]", "['jan 1 2020' TO 'feb 1 2020']", "[TO TO TO]", "[]", "[a b]", "[true TO false]"]
+          "[today TO tomorrow]", "['jan 1 2020' TO 'feb 1 2020']", "[TO TO TO]", "[]", "[a b]", "[true TO false]",
+          "[1e999999999 TO]", "[TO 1e999999999]", "{-1e999999999 TO 5]"]
 WILD = ["*", "?", "a*", "*a", "a?b", "*:*", "t:*", "n:*", "d:*", "b:*", "g:*", "s:*", "zz:*", "**", "a**b", "?*", "al*a",
-        "\u055e", "\u061f", "a\u1367b", "[ab]*", "a[*"]
+        "\u055e", "\u061f", "a\u1367b", "[ab]*", "a[*", "\ud800*", "a\udc00?", "\ud800~", "al\udfff*a"]
 SPACE = [" ", "  ", "\t", "\n", "\r\n", "\u00a0", "\u2003", "\u3000", "\x0b", "\x0c", "\x1c", "\x85"]
 UNI = ["é", "É", "ß", "日本", "日本語 テキスト", "\u0000", "\U0001F600", "\ud7ff", "a\u0301", "\u200b", "\u202e", "ǅ", "İ",
-       "ﬁ", "\ufeff", "\x7f", "\x1f"]
+       "ﬁ", "\ufeff", "\x7f", "\x1f", "\ud800", "\udfff", "a\ud800b"]
 COMPOSITE = ["t:(", "k:(a OR", "n:[", "d:[2020 TO", "NOT (", "(NOT)", "( AND )", "(OR)", "AND AND", "NOT NOT a",
              "a ANDNOT", "ANDMAYBE b", "REQUIRE", "a REQUIRE b", "n:>", "n:>=", "d:<", "b:<=", "t:>a", "n:>2", "n:<x",
              "d:>=2020", "d:>today", "zz:>1", "s:>1", "s:a", "s:[a TO b]", "s:\"a b\"", "s:a*", "g:a", "gw:ab", "g:\"ab cd\"",
@@ -286,7 +288,9 @@ COMPOSITE = ["t:(", "k:(a OR", "n:[", "d:[2020 TO", "NOT (", "(NOT)", "( AND )",
              "d:\"jan 5\"", "b:\"x\"", "+a -b c", "+", "-", "+-a", "-(a b)", "+\"a b\"", "a^2~3", "a~2^3", "t:a^2",
              "(a b)^2", "()^2", "t:()", "t:(())", "t:t:a", "t::a", ":a", "a:", "t:^2", "t:~2", "t:*^2", "t:?~",
              "'a b'", "t:'a:b'", "'", "'a", "a'", "k:'a' 'b", "' AND '", "pf:a", "pf:(a b)", "pf:", "regex:a.c",
-             "regex:(a", "#fn(a b)", "#fn[x](a)", "#fn", "#nofn(a)", "text:a", "n:1 OR d:2020 OR b:yes"]
+             "regex:(a", "#fn(a b)", "#fn[x](a)", "#fn", "#nofn(a)", "text:a", "n:1 OR d:2020 OR b:yes",
+             "dc:[1e999999999 TO]", "dc:[TO -1e999999999]", "dc:{1e999999999 TO 2}", "dc:1e999999999", "f:[1e999999999 TO]",
+             "n:[TO 1e999999999]", "t:\ud800*", "t2:a\udc00?", "k:\ud800", "ts:\udfff*"]
 ATOM_CLASSES = [("op", OPS, 10), ("br", BRACKETS, 9), ("qu", QUOTES, 6), ("pu", PUNCT, 9), ("fi", FIELDS, 12),
                 ("wo", WORDS, 9), ("nu", NUMS, 5), ("da", DATES, 5), ("bo", BOOSTS, 4), ("fz", FUZZ, 4),
                 ("ra", RANGES, 5), ("wi", WILD, 5), ("sp", SPACE, 3), ("un", UNI, 4), ("co", COMPOSITE, 8)]
